@@ -30,3 +30,19 @@ func (b *bitPattern) Bit(pos int) byte {
 		return '1'
 	}
 }
+
+// Matches determines whether or not a bitstring has the same length as the pattern
+// and agrees with it on every character of the pattern other than the wildcard *.
+func (b *bitPattern) Matches(c *bitString) bool {
+	if b.len != c.len || len(b.bits) != len(c.bits) {
+		return false
+	}
+
+	for i, p := range b.bits {
+		if p != '*' && p != c.bits[i] {
+			return false
+		}
+	}
+
+	return true
+}
